@@ -130,6 +130,8 @@ pub enum Tok {
     Frame(Vec<u8>),
     Garbage(Vec<u8>),
     Eof,
+    /// the connection stays quiet for so many seconds (only leading Age tokens count)
+    Age(u64),
 }
 
 #[derive(Clone, Debug)]
@@ -156,6 +158,7 @@ impl Tok {
             Tok::Frame(b) => format!("F:{}", hex(b)),
             Tok::Garbage(b) => format!("G:{}", hex(b)),
             Tok::Eof => "Z".into(),
+            Tok::Age(secs) => format!("A{secs}"),
         }
     }
     pub fn parse(mode: &Mode, t: &str) -> Option<Tok> {
@@ -164,6 +167,7 @@ impl Tok {
                 Some(("F", h)) => Tok::Frame(unhex(h)?),
                 Some(("G", h)) => Tok::Garbage(unhex(h)?),
                 None if t == "Z" => Tok::Eof,
+                None if t.starts_with('A') => Tok::Age(t[1..].parse().ok()?),
                 _ => return None,
             });
         }
@@ -197,6 +201,7 @@ impl Tok {
                 Tok::Resp { id: a.parse().ok()?, ok: b == "o" }
             }
             "Y" => Tok::Wrong,
+            "A" => Tok::Age(rest.parse().ok()?),
             _ => return None,
         })
     }
@@ -359,9 +364,20 @@ impl Drop for HandlerGuard {
     }
 }
 
+/// Leading `A<secs>` tokens: the endpoint exists (its DelayQueue was created at virtual time 0) and
+/// nothing happens on the connection while both clocks move; an Age token anywhere else is a no-op.
+/// 37 183 476 s is the largest age inside the model's dq_env for a queue that never fired.
+fn quiet_age(rt: &tokio::runtime::Runtime, fresh: bool, secs: u64) {
+    if fresh && secs > 0 && secs <= 40_000_000 {
+        vclock::advance(rt, Duration::from_secs(secs));
+    }
+}
+
 macro_rules! server_run {
-    ($codec:ident, $s:expr) => {{
+    ($codec:ident, $s:expr, $rt:expr) => {{
         let s: &Script = $s;
+        let rt: &tokio::runtime::Runtime = $rt;
+        let mut fresh = true;
         type CM = ClientMessage<String>;
         type RS = Response<String>;
         let pipe = LivePipe::new();
@@ -381,6 +397,12 @@ macro_rules! server_run {
         let mut tags: Vec<String> = vec![];
         for t in &s.toks {
             let mut o: Vec<String> = vec![];
+            if let Tok::Age(secs) = t {
+                quiet_age(rt, fresh && !over, *secs);
+                obs.push(o);
+                continue;
+            }
+            fresh = false;
             if over {
                 obs.push(o);
                 continue;
@@ -498,9 +520,10 @@ macro_rules! server_run {
 // ------------------------------------------------------------------------------- client mode
 
 macro_rules! client_run {
-    ($codec:ident, $s:expr, $now:expr) => {{
+    ($codec:ident, $s:expr, $rt:expr) => {{
         let s: &Script = $s;
-        let now: Instant = $now;
+        let rt: &tokio::runtime::Runtime = $rt;
+        let mut fresh = true;
         type CM = ClientMessage<String>;
         type RS = Response<String>;
         let pipe = LivePipe::new();
@@ -520,6 +543,12 @@ macro_rules! client_run {
         let mut tags: Vec<String> = vec![];
         for t in &s.toks {
             let mut o: Vec<String> = vec![];
+            if let Tok::Age(secs) = t {
+                quiet_age(rt, fresh && !over, *secs);
+                obs.push(o);
+                continue;
+            }
+            fresh = false;
             if over {
                 obs.push(o);
                 continue;
@@ -528,6 +557,7 @@ macro_rules! client_run {
             match t {
                 Tok::Call { neg, secs, nanos } => {
                     let d = Duration::new(*secs, 0).checked_add(Duration::new(0, *nanos));
+                    let now = Instant::now();
                     let deadline = d.and_then(|d| if *neg { now.checked_sub(d) } else { now.checked_add(d) });
                     match deadline {
                         None => act = false,
@@ -825,13 +855,12 @@ pub fn to_case(s: &Script, wrong_variant_on: bool) -> Case {
     vclock::reset();
     let rt = vclock::runtime();
     let _g = rt.enter();
-    let now = Instant::now();
     let mut chunks: Vec<usize> = vec![];
     let (mut obs, mut tags): (Vec<Vec<String>>, Vec<String>) = with_subscriber(&s.sub, || match (&s.mode, &s.codec) {
-        (Mode::Server, Cd::Json) => server_run!(Json, s),
-        (Mode::Server, Cd::Bincode) => server_run!(Bincode, s),
-        (Mode::Client, Cd::Json) => client_run!(Json, s, now),
-        (Mode::Client, Cd::Bincode) => client_run!(Bincode, s, now),
+        (Mode::Server, Cd::Json) => server_run!(Json, s, &rt),
+        (Mode::Server, Cd::Bincode) => server_run!(Bincode, s, &rt),
+        (Mode::Client, Cd::Json) => client_run!(Json, s, &rt),
+        (Mode::Client, Cd::Bincode) => client_run!(Bincode, s, &rt),
         (Mode::Stream, Cd::Json) => {
             let (o, t, c) = stream_run!(Json, s);
             chunks = c;
@@ -871,6 +900,7 @@ pub fn to_case(s: &Script, wrong_variant_on: bool) -> Case {
             Tok::Frame(p) => format!("MFrame {}", crate::wire::coq_bytes_smart(p)),
             Tok::Garbage(p) => format!("MGarbage {}", crate::wire::coq_bytes_smart(p)),
             Tok::Eof => "MEof".into(),
+            Tok::Age(secs) => format!("Age {secs}"),
         })
         .collect();
     for t in &s.toks {
@@ -930,6 +960,10 @@ const SECS: [u64; 16] = [
     251_802_300_798, 251_802_300_800, 9_223_372_036_853_775_806, 9_223_372_036_854_775_807,
     9_223_372_036_854_775_808, u64::MAX,
 ];
+/// quiet connection ages: 0, 1 day, 65, 100, 300, 429 days (all inside dq_env: 430.36 days)
+const AGES: [u64; 6] = [0, 86_400, 5_616_000, 8_640_000, 25_920_000, 37_065_600];
+/// deadlines years away: 2, 3, 100, 285 years
+const FAR: [u64; 4] = [63_072_000, 94_608_000, 3_155_760_000, 8_987_760_000];
 const NANOS: [u32; 6] = [0, 1, 999_999_999, 1_000_000_000, 1_999_999_999, u32::MAX];
 const IDS: [u64; 8] = [0, 1, 250, 251, 65536, 4294967296, u64::MAX - 1, u64::MAX];
 
@@ -963,6 +997,12 @@ pub fn gen(rng: &mut Rng, wrong_variant_on: bool) -> Script {
                 });
             }
             toks.push(Tok::Probe(2_000_000 + rng.below(1000)));
+            // a third of the scripts: the connection was quiet for a while, then a request whose
+            // deadline is years away (the timer is clamped to MAX_TIMEOUT; age + clamp must fit the wheel)
+            if rng.chance(1, 3) {
+                toks.insert(0, Tok::Age(*rng.pick(&AGES)));
+                toks.insert(1, Tok::Req { id: 3_000_000, dl: Some((*rng.pick(&FAR), 0)), hang: rng.chance(1, 2) });
+            }
         }
         Mode::Client => {
             let n = rng.range(2, 8);
@@ -974,6 +1014,10 @@ pub fn gen(rng: &mut Rng, wrong_variant_on: bool) -> Script {
                 });
             }
             toks.push(Tok::Call { neg: false, secs: 10, nanos: 0 });
+            if rng.chance(1, 3) {
+                toks.insert(0, Tok::Age(*rng.pick(&AGES)));
+                toks.insert(1, Tok::Call { neg: false, secs: *rng.pick(&FAR), nanos: 0 });
+            }
         }
         Mode::Stream => {
             rd = rng.pick(&[vec![1usize], vec![1, 0], vec![3, 0, 5, 2], vec![1_000_000], vec![7, 11]]).clone();
@@ -1019,6 +1063,17 @@ pub fn gen(rng: &mut Rng, wrong_variant_on: bool) -> Script {
 }
 
 pub fn sweep(mut f: impl FnMut(Script)) {
+    // every quiet age x every far deadline, server and client, then a probe
+    for codec in [Cd::Json, Cd::Bincode] {
+        for &a in &AGES {
+            for &d in &FAR {
+                f(Script { mode: Mode::Server, sub: Sub::None, codec: codec.clone(), rd: vec![], cut: 0,
+                           toks: vec![Tok::Age(a), Tok::Req { id: 1, dl: Some((d, 0)), hang: true }, Tok::Req { id: 2, dl: Some((d, 1)), hang: false }, Tok::Probe(9)] });
+                f(Script { mode: Mode::Client, sub: Sub::None, codec: codec.clone(), rd: vec![], cut: 0,
+                           toks: vec![Tok::Age(a), Tok::Call { neg: false, secs: d, nanos: 0 }, Tok::Call { neg: false, secs: 10, nanos: 0 }] });
+            }
+        }
+    }
     // every boundary duration x every subscriber x both codecs, server and client, each followed by a probe
     for sub in [Sub::None, Sub::Fmt, Sub::Otel] {
         for codec in [Cd::Json, Cd::Bincode] {
